@@ -170,3 +170,39 @@ func H_C02_second_message() {
 	exp.Ord = o
 	checkWellFormed(bs, exp)
 }
+
+type ZTypedMix struct {
+	Attrs ZAttrs
+	L1    []int32
+	L2    []int32
+	L3    []string
+}
+
+// H_C02_type_names: every typed list and typed map carries its registered type name (literally, or by a reference
+// the reference parser resolves to that same name), also when maps and lists of several types alternate.
+func H_C02_type_names() {
+	v := &ZTypedMix{Attrs: ZAttrs{"k": "v"}, L1: []int32{vInt32("x")}, L2: []int32{2, 3}, L3: []string{"s"}}
+	if vChoice("emptyAttrs", 2) == 1 {
+		v.Attrs = nil
+	}
+	_, nameMap := vExtract(v)
+	bs, err := ToBytes(v, nameMap)
+	vAssert("encode-noerr", err == nil)
+	b := newAVBuilder(nameMap)
+	o := b.ord()
+	var attrs *AV
+	if v.Attrs == nil {
+		attrs = &AV{Kind: 'M', Ord: -1}
+	} else {
+		attrs = &AV{Kind: 'M', Type: "com.example.Attrs", Ord: b.ord(), Items: []*AV{avStr("k"), avStr("v")}}
+	}
+	l1 := b.list("[]int32", 1)
+	l1.Items = append(l1.Items, avInt(v.L1[0]))
+	l2 := b.list("[]int32", 2)
+	l2.Items = append(l2.Items, avInt(2), avInt(3))
+	l3 := b.list("[]string", 1)
+	l3.Items = append(l3.Items, avStr("s"))
+	exp := b.obj("ZTypedMix", []string{"attrs", "l1", "l2", "l3"}, attrs, l1, l2, l3)
+	exp.Ord = o
+	checkWellFormed(bs, exp)
+}
